@@ -19,8 +19,13 @@ values, …) travel as one word `x<hex of the UTF-8 bytes>` (`x` alone = empty s
   tok wrapped <a><p><m>             routes ending in the RequireAdmin closure            -> METHOD path|… | -
   tok req <a><p><m> <METHOD> <xPATH> <xHDR>   a request to a registered route pattern    -> noroute | outside <kind> | decision
 decision = 401 <bhserrors code> | pass open | pass user | pass admin
+Every decision is ALSO computed by the code regenerated from the Go source (`BHS.Gen.AuthMw` through
+`BHS.Model.AuthMwWire.genAuthorize`); when the two differ the answer is `err:gen-mismatch model=… gen=…`
+(never on the unchanged tree: `BHS.Props.AuthMw.AuthMw_render`). `tok ws` cross-checks the regenerated
+`(*TokenService).GetToken` the same way.
 -/
 import BHS.Model.Auth
+import BHS.Model.AuthMwWire
 import BHS.Gen.Routes
 
 namespace Driver.Ops.Auth
@@ -74,6 +79,21 @@ def kindName : Kind → String
   | .api => "api" | .status => "status" | .swagger => "swagger" | .metrics => "metrics"
   | .pprof => "pprof" | .websocket => "websocket" | .other => "other"
 
+/-- the model's decision line, cross-checked against the regenerated code -/
+def decide2 (env : Env) (store : Store) (admin : Bool) (h : String) : String :=
+  let m := (authorize env store admin h).render
+  let g := BHS.Model.AuthMwWire.genAuthorize env store admin h
+  if m = g then m else "err:gen-mismatch model=" ++ m ++ " gen=" ++ g
+
+/-- websocket handshake line, cross-checked against the regenerated `(*TokenService).GetToken` -/
+def ws2 (sys : Sys) (t : String) : String :=
+  let m := answer sys (.ws t)
+  let ok := match BHS.Gen.AuthMw.tokenServiceGetToken ⟨sys.env.admin, BHS.Model.AuthMwWire.repoOf sys.store⟩ t with
+    | .ok _ => true
+    | _ => false
+  let g := if sys.env.useAuth then (if ok then "connected" else "rejected") else "connected"
+  if m = g then m else "err:gen-mismatch model=" ++ m ++ " gen=" ++ g
+
 def handleTok (st : S) : List String → Option (S × String)
   | ["cfg", a, u] => do
     let adm ← decodeWord a
@@ -88,20 +108,20 @@ def handleTok (st : S) : List String → Option (S × String)
   | ["acreate", h, t] => do
     let h ← decodeWord h
     let t ← decodeWord t
-    pure ({ sys := step st.sys (.create h t) }, answer st.sys (.create h t))
+    pure ({ sys := step st.sys (.create h t) }, decide2 st.sys.env st.sys.store true h)
   | ["arevoke", h, t] => do
     let h ← decodeWord h
     let t ← decodeWord t
-    pure ({ sys := step st.sys (.revoke h t) }, answer st.sys (.revoke h t))
+    pure ({ sys := step st.sys (.revoke h t) }, decide2 st.sys.env st.sys.store true h)
   | ["auth", h] => do
     let h ← decodeWord h
-    pure ({ sys := step st.sys (.auth h) }, answer st.sys (.auth h))
+    pure ({ sys := step st.sys (.auth h) }, decide2 st.sys.env st.sys.store false h)
   | ["authadmin", h] => do
     let h ← decodeWord h
-    pure (st, (authorize st.sys.env st.sys.store true h).render)
+    pure (st, decide2 st.sys.env st.sys.store true h)
   | ["ws", t] => do
     let t ← decodeWord t
-    pure ({ sys := step st.sys (.ws t) }, answer st.sys (.ws t))
+    pure ({ sys := step st.sys (.ws t) }, ws2 st.sys t)
   | ["restart"] => some ({ sys := step st.sys .restart }, answer st.sys .restart)
   | ["dump"] =>
     let ws := (st.sys.store.map encodeWord).toArray.qsort (· < ·)
@@ -122,7 +142,7 @@ def handleTok (st : S) : List String → Option (S × String)
     let r : Route := ⟨m, p⟩
     if !rs.contains r then pure (st, "noroute")
     else if behindAuth r then
-      pure (st, (authorize ⟨st.sys.env.admin, c.useAuth⟩ st.sys.store (adminOnly r) h).render)
+      pure (st, decide2 ⟨st.sys.env.admin, c.useAuth⟩ st.sys.store (adminOnly r) h)
     else pure (st, "outside " ++ kindName (kind r))
   | _ => none
 
